@@ -30,6 +30,76 @@ def vcl_action(a):
     return "return(%s);" % ("c06_unknown_state" if st == "other" else st)
 
 
+# ---- the POSITION a state-changing statement is issued from (same action, same documented successor)
+POSITIONS = ["top", "block", "ifarm", "elsearm", "switcharm", "call", "call2", "func", "funcif", "callfunc"]
+CALL_POSITIONS = {"call", "call2", "func", "funcif", "callfunc"}
+FUNC_POSITIONS = {"func", "funcif", "callfunc"}
+
+
+def position_ok(a, pos):
+    """is issuing action `a` from `pos` the same action?  `return;` inside a called subroutine only leaves that
+    subroutine; in a FUNCTIONAL subroutine `return (<state>);` is not available (the linter rejects every
+    parenthesised return there, the simulator evaluates the identifier and raises "undefined variable"), so only
+    the statements `restart;` / `error ...;`, falling off and runtime failures are issued from there"""
+    if pos == "top":
+        return True
+    if a == "absent":
+        return False
+    if a == "bare":
+        return pos not in CALL_POSITIONS
+    if pos in FUNC_POSITIONS:
+        return not a.startswith("r-")
+    return True
+
+
+class Namer:
+    def __init__(self):
+        self.n = 0
+        self.subs = []
+
+    def fresh(self, prefix):
+        self.n += 1
+        return "c06_%s%d" % (prefix, self.n)
+
+
+def vcl_action_at(a, pos, namer):
+    """statement text that issues action `a` from position `pos`; helper subroutines go to namer.subs"""
+    A = vcl_action(a)
+    if pos == "top" or namer is None:
+        return A
+    if pos == "block":
+        return "{ { %s } }" % A
+    if pos == "ifarm":
+        return "if (req.http.Host) { %s }" % A
+    if pos == "elsearm":
+        return "if (!req.http.Host) { } else { if (req.http.Host) { %s } }" % A
+    if pos == "switcharm":
+        return 'switch (req.http.Host) { case "c06-no-such-host": break; default: %s break; }' % A
+    if pos == "call":
+        u = namer.fresh("u")
+        namer.subs.append("sub %s { %s }" % (u, A))
+        return "call %s;" % u
+    if pos == "call2":
+        u, w = namer.fresh("u"), namer.fresh("w")
+        namer.subs.append("sub %s { %s }" % (w, A))
+        namer.subs.append("sub %s { if (req.http.Host) { call %s; } }" % (u, w))
+        return "call %s;" % u
+    if pos == "func":
+        f = namer.fresh("f")
+        namer.subs.append("sub %s BOOL { %s return true; }" % (f, A))
+        return "call %s();" % f
+    if pos == "funcif":
+        f = namer.fresh("f")
+        namer.subs.append("sub %s BOOL { if (req.http.Host) { %s } return true; }" % (f, A))
+        return "call %s();" % f
+    if pos == "callfunc":
+        u, f = namer.fresh("u"), namer.fresh("f")
+        namer.subs.append("sub %s BOOL { %s return true; }" % (f, A))
+        namer.subs.append("sub %s { call %s(); }" % (u, f))
+        return "call %s;" % u
+    raise ValueError(pos)
+
+
 def by_restarts(items, fmt=lambda x: x):
     """items: list indexed by req.restarts (0..MAXR) of statement text -> an if/else chain"""
     txt = [fmt(x) for x in items]
@@ -43,18 +113,29 @@ def by_restarts(items, fmt=lambda x: x):
 
 
 def vcl_ops(ops):
+    """rate-limit calls at the top of vcl_recv; the *h forms take the client key from a request header
+    (RK / PK / PH), so that one program serves histories with many distinct keys"""
     out = []
     for o in ops:
         if o[0] == "incr":
             out.append('set var.n = ratelimit.ratecounter_increment(c06rc, "%s", %d); log "obs:" var.n;' % (o[1], o[2]))
+        elif o[0] == "incrh":
+            out.append('set var.n = ratelimit.ratecounter_increment(c06rc, req.http.RK, %d); log "obs:" var.n;' % o[1])
         elif o[0] == "pbadd":
             out.append('ratelimit.penaltybox_add(c06pb, "%s", %ds);' % (o[1], o[2]))
+        elif o[0] == "pbaddh":
+            out.append('ratelimit.penaltybox_add(c06pb, req.http.PK, %ds);' % o[1])
         elif o[0] == "pbhas":
             out.append('if (ratelimit.penaltybox_has(c06pb, "%s")) { log "obs:1"; } else { log "obs:0"; }' % o[1])
+        elif o[0] == "pbhash":
+            out.append('if (ratelimit.penaltybox_has(c06pb, req.http.PH)) { log "obs:1"; } else { log "obs:0"; }')
+        elif o[0] == "check":   # (check, client, delta, window s, limit, ttl s)
+            out.append('if (ratelimit.check_rate("%s", c06rc, %d, %d, %d, c06pb, %ds)) { log "obs:1"; } else { log "obs:0"; }'
+                       % (o[1], o[2], o[3], o[4], o[5]))
     return " ".join(out)
 
 
-def variant_body(v, sc):
+def variant_body(v, sc, namer=None):
     """v: variant dict {acts: {scope: [a0..a3]}, ops: [ops0..ops3], hash: [h0..h3], hit_ttl: [..], fetch: [..], dead: [..]}"""
     parts = []
     if sc == "recv":
@@ -75,7 +156,8 @@ def variant_body(v, sc):
                 return "set beresp.ttl = %ds;" % x[1]
             return "set beresp.cacheable = false;"
         parts.append(by_restarts(v["fetch"], f))
-    parts.append(by_restarts(v["acts"][sc], vcl_action))
+    pos = v.get("pos", {}).get(sc, ["top"] * 4)
+    parts.append(by_restarts(list(zip(v["acts"][sc], pos)), lambda ap: vcl_action_at(ap[0], ap[1], namer)))
     return " ".join(p for p in parts if p)
 
 
@@ -91,10 +173,11 @@ def build_vcl(variants):
     Request-level features: header Canon -> vcl_recv rewrites req.url to /canon (two URLs, one hash);
     header K -> vcl_hash adds it to req.hash (one URL, several hashes)."""
     s = ["@BACKEND@", "@DEAD@", "ratecounter c06rc {}", "penaltybox c06pb {}"]
+    namer = Namer()
     for sc in SCOPES:
         if is_absent(variants, sc):
             continue
-        bodies = [variant_body(v, sc) for v in variants]
+        bodies = [variant_body(v, sc, namer) for v in variants]
         hoist = ""
         if sc == "recv":
             hoist = 'if (req.http.Canon) { set req.url = "/canon"; } '
@@ -113,7 +196,7 @@ def build_vcl(variants):
                 chain.append("%s{ %s }" % (cond, b))
             body = hoist + " else ".join(chain)
         s.append("sub vcl_%s { %s }" % (sc, body))
-    return "\n".join(s)
+    return "\n".join(s[:4] + namer.subs + s[4:])
 
 
 def plain_variant(acts=None):
@@ -125,12 +208,17 @@ def plain_variant(acts=None):
             "fetch": [None] * 4, "dead": [False] * 4}
 
 
-def url_for(path, st=200, maxage=None):
+BACKEND_TIMEOUT_MS = 5000     # .first_byte_timeout of the @BACKEND@ declaration (harness sm.go backendDecl)
+
+
+def url_for(path, st=200, maxage=None, delay_ms=0):
     q = {}
     if st != 200:
         q["st"] = str(st)
     if maxage is not None:
         q["cc"] = "max-age=%d" % maxage
+    if delay_ms:
+        q["delay"] = str(delay_ms)      # the origin answers after that many milliseconds
     return path + ("?" + urllib.parse.urlencode(q) if q else "")
 
 
@@ -156,8 +244,9 @@ def model_request(variants, reqs):
         v = variants[rq.get("v", 0)]
         canon = bool(rq.get("canon")) and not is_absent(variants, "recv")
         hk = rq.get("hk", "") if not is_absent(variants, "hash") else ""
-        url = url_for(rq["path"], rq.get("st", 200), rq.get("maxage"))
+        url = url_for(rq["path"], rq.get("st", 200), rq.get("maxage"), rq.get("delay_ms", 0))
         st = rq.get("st", 200)
+        timed_out = rq.get("delay_ms", 0) > BACKEND_TIMEOUT_MS and not canon
         base_ttl = (rq["maxage"] if rq.get("maxage") is not None else 120) * 1000
         full = "http://localhost" + url
         if canon:      # vcl_recv rewrote req.url: the origin sees /canon without the query string
@@ -169,7 +258,7 @@ def model_request(variants, reqs):
             # `set req.hash += x` replaces the hash by sha256(old ++ x) (assign.UpdateHash)
             h = v["hash"][r]
             hashes.append(intern(hashlib.sha256((full + h).encode()).hexdigest() if h else full))
-            if v["dead"][r]:
+            if v["dead"][r] or timed_out:
                 bresp.append("x")
             else:
                 c, t = st in CACHEABLE, base_ttl
@@ -190,20 +279,31 @@ def model_request(variants, reqs):
             for o in v["ops"][r]:
                 if o[0] == "incr":
                     os_.append("(incr %d %d)" % (intern("rc:" + o[1]), o[2]))
+                elif o[0] == "incrh":
+                    os_.append("(incr %d %d)" % (intern("rc:" + rq["rk"]), o[1]))
                 elif o[0] == "pbadd":
                     os_.append("(pbadd %d %d)" % (intern("pb:" + o[1]), o[2] * 1000))
-                else:
+                elif o[0] == "pbaddh":
+                    os_.append("(pbadd %d %d)" % (intern("pb:" + rq["pk"]), o[1] * 1000))
+                elif o[0] == "pbhas":
                     os_.append("(pbhas %d)" % intern("pb:" + o[1]))
+                elif o[0] == "pbhash":
+                    os_.append("(pbhas %d)" % intern("pb:" + rq["ph"]))
+                elif o[0] == "check":
+                    os_.append("(check %d %d %d %d %d %d)" % (intern("rc:" + o[1]), intern("pb:" + o[1]), o[2], o[3], o[4], o[5] * 1000))
             ops.append("(" + " ".join(os_) + ")")
         parts.append("(req %d 1 (orc %s) (hash %s) (bresp %s) (hit %s) (ops %s))" % (
             now, orc, " ".join(map(str, hashes)), " ".join(bresp), " ".join(hit), " ".join(ops)))
-        ir = {"url": url, "adv_ms": rq.get("adv_ms", 0), "hdr": {}}
+        ir = {"url": url, "adv_ms": rq.get("adv_ms", 0), "hdr": {}, "start_ms": rq.get("start_ms", 0)}
         if len(variants) > 1:
             ir["hdr"]["V"] = str(rq.get("v", 0))
         if rq.get("canon"):
             ir["hdr"]["Canon"] = "1"
         if rq.get("hk"):
             ir["hdr"]["K"] = rq["hk"]
+        for fld, hdr in (("rk", "RK"), ("pk", "PK"), ("ph", "PH")):
+            if rq.get(fld):
+                ir["hdr"][hdr] = rq[fld]
         ireqs.append(ir)
     return ("hist %d " % now) + " ".join(parts), json.dumps({"vcl": build_vcl(variants), "reqs": ireqs}), intern.ids
 
@@ -219,7 +319,7 @@ def canon_impl(reply, ids):
         if x.get("raw") is not None and not x.get("flows") and x.get("http") != 200 and not x.get("error"):
             out.append("RAW %s" % x.get("raw"))
             continue
-        flows = ",".join(f[4:] for f in (x["flows"] or []))
+        flows = ",".join(f[4:] for f in (x["flows"] or []) if f.startswith("vcl_"))
         obs = ",".join(m[4:] for m in (x["logs"] or []) if m.startswith("obs:"))
         xc = x["xcache"] if x["xcache"] is not None else "-"
         xh = x["xhits"] if x.get("xhits") is not None else "-"
